@@ -244,6 +244,10 @@ pub fn theory_formulas() -> Vec<&'static str> {
         "exists X (q(X) -> p(X))",
         "forall V1 (s and V1 = 1 -> p(V1))",
         "forall X (q(X) -> p(X)) and s",
+        // the same head variables in another argument order / another quantifier order
+        "forall X Y (q(X) and q(Y) and X != Y -> p(Y, X))",
+        "forall Y X (s and q(X) -> p(Y, X))",
+        "forall Y X (q(Y) and not q(X) -> p(X, Y))",
     ]
 }
 
@@ -363,7 +367,7 @@ pub fn run(run: &Run) {
     let total = all.len();
     run.set_extra("programs_generated", json!(total));
     run.set_extra("windows", json!([W0, W0 + 3]));
-    run.set_rule("part 1: every program of 1-3 rules over a 40-rule alphabet (heads basic/choice/constraint over p/1,p/2,q/1,r/0, bodies with in/1, negation, double negation, comparisons, intervals, arithmetic) that the real is_tight() accepts x every subset of non-head predicates as inputs x all classical interpretations: completion(tau*(P), inputs) vs stable models with inputs from the reference semantics (HT truth table, minimality by enumeration). part 2: every theory of 1-2 formulas over 30 implication shapes: listed non-completability reasons => completion refuses; accepted theories vs supported-model semantics. non-trivial = distinct stable-model table neither empty nor full");
+    run.set_rule("part 1: every program of 1-3 rules over a 40-rule alphabet (heads basic/choice/constraint over p/1,p/2,q/1,r/0, bodies with in/1, negation, double negation, comparisons, intervals, arithmetic) that the real is_tight() accepts x every subset of non-head predicates as inputs x all classical interpretations: completion(tau*(P), inputs) vs stable models with inputs from the reference semantics (HT truth table, minimality by enumeration). part 2: every theory of 1-2 formulas over 33 implication shapes (incl. heads that permute the same variables): listed non-completability reasons => completion refuses; accepted theories vs supported-model semantics. non-trivial = distinct stable-model table neither empty nor full");
     run.assume("finite slice as in C01; stable models are computed among interpretations over U with inputs fixed to the interpretation's own input facts");
     let limit = if quick { 8 } else { 9 };
     let idx: Vec<usize> = (0..total).collect();
